@@ -6,6 +6,7 @@ package main
 import (
 	"context"
 	"fmt"
+	"sync"
 	"sync/atomic"
 	"time"
 
@@ -26,6 +27,7 @@ type e2eBudgetCase struct {
 	Len    int      `json:"len"`
 	Reps   int      `json:"reps,omitempty"` // sequential requests on the same pair of instances (default 1), each over a fresh chain
 	Pers   []uint64 `json:"pers,omitempty"` // per-request budget of each sequential request set by the hook (overrides Per; len = Reps): a request's budget is its own, it must not leak into later requests
+	Paused bool     `json:"paused,omitempty"` // responder side: the request hook that sets the per-request budget also pauses the response; it is resumed as soon as it is parked
 	Local  int      `json:"local,omitempty"` // the requestor already holds the first Local blocks of each chain (its request then asks the responder to skip them); < Len
 	Tags   []string `json:"tags,omitempty"`
 }
@@ -56,11 +58,20 @@ func runE2EBudget(c e2eBudgetCase) (out []e2eBudgetObs, err error) {
 	req := w.Start(0, reqOpts...)
 	resp := w.Start(1, respOpts...)
 	var respBlocks, reqBlocks, curPer uint64
+	var pmu sync.Mutex
+	var pausedID *graphsync.RequestID
 	curPer = c.Per
 	resp.RegisterIncomingRequestHook(func(p peer.ID, r graphsync.RequestData, ha graphsync.IncomingRequestHookActions) {
 		ha.ValidateRequest()
 		if per := atomic.LoadUint64(&curPer); c.Side == "responder" && per > 0 {
 			ha.MaxLinks(per)
+		}
+		if c.Side == "responder" && c.Paused {
+			ha.PauseResponse()
+			id := r.ID()
+			pmu.Lock()
+			pausedID = &id
+			pmu.Unlock()
 		}
 	})
 	resp.RegisterOutgoingBlockHook(func(p peer.ID, r graphsync.RequestData, b graphsync.BlockData, ha graphsync.OutgoingBlockHookActions) {
@@ -95,6 +106,27 @@ func runE2EBudget(c e2eBudgetCase) (out []e2eBudgetObs, err error) {
 		failed := false
 		ctx, cancel := context.WithTimeout(w.Ctx, 30*time.Second)
 		progress, errs := req.Request(ctx, w.Nodes[1].ID(), d.Root(), dag.AllSelector())
+		stopUnpause := make(chan struct{})
+		if c.Paused {
+			go func() {
+				for {
+					select {
+					case <-stopUnpause:
+						return
+					case <-time.After(2 * time.Millisecond):
+					}
+					pmu.Lock()
+					id := pausedID
+					pmu.Unlock()
+					if id != nil && resp.Unpause(ctx, *id) == nil {
+						pmu.Lock()
+						pausedID = nil
+						pmu.Unlock()
+						return
+					}
+				}
+			}()
+		}
 		for progress != nil || errs != nil {
 			select {
 			case _, ok := <-progress:
@@ -109,9 +141,11 @@ func runE2EBudget(c e2eBudgetCase) (out []e2eBudgetObs, err error) {
 				}
 			case <-ctx.Done():
 				cancel()
+				close(stopUnpause)
 				return nil, fmt.Errorf("request timed out")
 			}
 		}
+		close(stopUnpause)
 		cancel()
 		if c.Side == "responder" {
 			// let the responder finish its bookkeeping
@@ -134,7 +168,7 @@ Definition mk_ebcase := Build_ebcase.
 func driveE2EBudget(c *ctx) error {
 	w := cw.New(c.out, e2eBudgetHeader, "ebcase", []cw.Check{{Name: "MON07E", Fn: "ebcase_ok"}})
 	w.Stats.Rule = "two real GraphSync instances over the libp2p mocknet; chain DAGs of 1..6 blocks on the responder; every combination of global and per-request " +
-		"link budget in {0..4} on the requestor and on the responder; 1-3 sequential requests (fresh chains) per pair of instances, also with per-request budgets that differ from request to request (hook sets MaxLinks for some only); responder-side cases also with the requestor holding the first 1-2 blocks (so the request carries do-not-send-first-blocks); observed = blocks loaded by the enforcing peer and whether the request failed; " +
+		"link budget in {0..4} on the requestor and on the responder; 1-3 sequential requests (fresh chains) per pair of instances, also with per-request budgets that differ from request to request (hook sets MaxLinks for some only); responder-side cases also with the budget-setting hook pausing the response at its start (resumed at once), and with the requestor holding the first 1-2 blocks (so the request carries do-not-send-first-blocks); observed = blocks loaded by the enforcing peer and whether the request failed; " +
 		"non-trivial = both budgets non-zero; distinct = distinct terms"
 	run := func(ec e2eBudgetCase, tag string) error {
 		c.inflight(ec)
@@ -204,6 +238,12 @@ func driveE2EBudget(c *ctx) error {
 					}
 					// the responder's budget counts the blocks IT loads, also those the request tells it not to send:
 					// the requestor holds a prefix locally, so its request carries do-not-send-first-blocks
+					if side == "responder" && p > 0 && (g == 0 || g > p) {
+						// the hook that sets the per-request budget also pauses the response at its start
+						if err := run(e2eBudgetCase{Side: side, Global: uint64(g), Per: uint64(p), Len: l + 2, Reps: 1, Paused: true}, "grid-paused-at-start"); err != nil {
+							return err
+						}
+					}
 					if side == "responder" && l >= 3 && (g > 0 || p > 0) {
 						k := 1 + (g+p)%2
 						if err := run(e2eBudgetCase{Side: side, Global: uint64(g), Per: uint64(p), Len: l, Reps: 1, Local: k}, "grid-local-prefix"); err != nil {
